@@ -1305,3 +1305,182 @@ Proof.
   apply (run_raw_total _) in Hin; [exact Hin|].
   apply Forall_app. split; apply split_aux_nodelim; reflexivity.
 Qed.
+
+(* ------------------------------------------------------------------ *)
+(** * Arguments: registers, labels, PC offsets, locations, values *)
+
+Theorem register_iff : forall s r, register_try_parse s = Ok (Some r) <-> RegSyn s r.
+Proof.
+  intros s r. split.
+  - unfold register_try_parse. intros H. destruct s as [|c [|d [|e t]]]; try discriminate.
+    + destruct ((c =? 114) || (c =? 82)); discriminate.
+    + destruct ((c =? 114) || (c =? 82)) eqn:Ec; [|discriminate].
+      destruct (between 48 d 55) eqn:Ed; [|discriminate]. inversion H; subst.
+      constructor; [|exact Ed]. apply orb_true_iff in Ec. destruct Ec as [Ec|Ec]; apply N.eqb_eq in Ec; auto.
+    + destruct ((c =? 114) || (c =? 82)); [|discriminate].
+      destruct (between 48 d 55); [|discriminate]. destruct (can_contain e); discriminate.
+  - intros H. inversion H as [c d Hc Hd]; subst. unfold register_try_parse.
+    assert (Ec : (c =? 114) || (c =? 82) = true).
+    { destruct Hc as [-> | ->]; reflexivity. }
+    rewrite Ec, Hd. reflexivity.
+Qed.
+
+Lemma IntSyn_nonempty : forall s v, IntSyn s v -> s <> [].
+Proof. intros s v H ->. apply parse_integer_complete in H. discriminate. Qed.
+
+Lemma as_i16_iff : forall x v, as_i16 x = Ok v <-> (x = v /\ fits_i16 v).
+Proof.
+  intros x v. unfold as_i16, fits_i16.
+  destruct (Z.leb_spec (-32768) x) as [H1|H1]; destruct (Z.leb_spec x 32767) as [H2|H2]; simpl;
+    (split; [intros Hx; first [discriminate | inversion Hx; subst; split; [reflexivity|lia]]
+            |intros [-> Hx]; try reflexivity; lia]).
+Qed.
+
+Lemma as_u16_iff : forall x v, as_u16 x = Ok v <-> (x = v /\ fits_u16 v).
+Proof.
+  intros x v. unfold as_u16, fits_u16.
+  destruct (Z.leb_spec 0 x) as [H1|H1]; destruct (Z.leb_spec x 65535) as [H2|H2]; simpl;
+    (split; [intros Hx; first [discriminate | inversion Hx; subst; split; [reflexivity|lia]]
+            |intros [-> Hx]; try reflexivity; lia]).
+Qed.
+
+Theorem pcoffset_iff : forall s v, pcoffset_try_parse s = Ok (Some v) <-> PcOffSyn s v.
+Proof.
+  intros s v. split.
+  - unfold pcoffset_try_parse. intros H. destruct s as [|c t]; [discriminate|].
+    destruct (N.eqb_spec c 94) as [->|]; simpl negb in H; cbv iota in H; [|discriminate].
+    rewrite drop_bytes_one in H by reflexivity. destruct t as [|x t].
+    { inversion H; subst. constructor. }
+    destruct (parse_integer (x :: t) false) as [[o|]|e|w|q] eqn:E; simpl in H; try discriminate.
+    destruct (as_i16 o) as [o'| | |] eqn:E2; simpl in H; try discriminate. inversion H; subst.
+    apply as_i16_iff in E2. destruct E2 as [-> Hf].
+    apply Pc_offset; [apply parse_integer_sound; exact E|exact Hf].
+  - intros H. inversion H as [|t v' Hi Hf]; subst; [reflexivity|].
+    pose proof (IntSyn_nonempty _ _ Hi) as Hne.
+    unfold pcoffset_try_parse. change (94 =? 94) with true. simpl negb. cbv iota.
+    rewrite drop_bytes_one by reflexivity. destruct t as [|x t]; [contradiction|].
+    rewrite (parse_integer_complete _ _ Hi). simpl.
+    assert (E : as_i16 v = Ok v) by (apply as_i16_iff; auto). rewrite E. reflexivity.
+Qed.
+
+Lemma label_char_eq : forall c, can_contain c = label_char c.
+Proof.
+  intros c. unfold can_contain, label_char, label_start, is_lower, is_upper, is_decimal.
+  destruct (between 97 c 122), (between 65 c 90), (between 48 c 57), (c =? 95); reflexivity.
+Qed.
+
+Lemma label_start_eq : forall c, can_start_with c = label_start c.
+Proof. reflexivity. Qed.
+
+(** The scan stops at the end of the longest run of label characters. *)
+Lemma label_scan_spec2 : forall rest n, exists pre suf,
+  rest = pre ++ suf /\ label_scan rest n = n + bytes pre /\ forallb label_char pre = true /\
+  (forall x t, suf = x :: t -> label_char x = false).
+Proof.
+  induction rest as [|c rest IH]; intros n.
+  - exists [], []. repeat split; try reflexivity; [simpl; lia|intros; discriminate].
+  - simpl. rewrite label_char_eq. destruct (label_char c) eqn:Ec.
+    + destruct (IH (n + len_utf8 c)) as (pre & suf & -> & E & Hp & Hs). exists (c :: pre), suf.
+      repeat split; auto; [rewrite E; simpl; lia|simpl; rewrite Ec; exact Hp].
+    + exists [], (c :: rest). repeat split; try reflexivity; [simpl; lia|].
+      intros x t E. inversion E; subst. exact Ec.
+Qed.
+
+Lemma label_scan_all : forall cs suf n, forallb label_char cs = true ->
+  (forall x t, suf = x :: t -> label_char x = false) ->
+  label_scan (cs ++ suf) n = n + bytes cs.
+Proof.
+  induction cs as [|c cs IH]; intros suf n Hc Hs; simpl.
+  - destruct suf as [|x t]; simpl; [lia|]. rewrite label_char_eq, (Hs x t eq_refl). lia.
+  - simpl in Hc. apply andb_true_iff in Hc. destruct Hc as [Hc1 Hc2].
+    rewrite label_char_eq, Hc1. rewrite IH by assumption. lia.
+Qed.
+
+Lemma parse_integer_signed : forall s v,
+  parse_integer s true = Ok (Some v) <-> SignedIntSyn s v.
+Proof.
+  intros s v. unfold SignedIntSyn. split.
+  - intros H. assert (H2 := H). rewrite pi_unfold in H. destruct s as [|c t]; [discriminate|].
+    unfold take_sign in H.
+    destruct (N.eqb_spec c 43) as [->|].
+    { split; [|exists 43, t; auto]. apply parse_integer_sound. rewrite pi_unfold. exact H. }
+    destruct (N.eqb_spec c 45) as [->|].
+    { split; [|exists 45, t; auto]. apply parse_integer_sound. rewrite pi_unfold. exact H. }
+    discriminate.
+  - intros [Hi (c & t & -> & Hc)]. apply parse_integer_complete in Hi.
+    rewrite pi_unfold in *. unfold take_sign in *.
+    destruct Hc as [-> | ->]; exact Hi.
+Qed.
+
+Lemma app_same_prefix_len : forall (a b c d : list N), a ++ b = c ++ d ->
+  forallb label_char a = true -> forallb label_char c = true ->
+  (forall x t, b = x :: t -> label_char x = false) ->
+  (forall x t, d = x :: t -> label_char x = false) -> a = c /\ b = d.
+Proof.
+  induction a as [|x a IH]; intros b c d E Ha Hc Hb Hd.
+  - destruct c as [|y c]; [auto|]. simpl in E. subst b. simpl in Hc. apply andb_true_iff in Hc.
+    rewrite (Hb y (c ++ d) eq_refl) in Hc. destruct Hc; discriminate.
+  - destruct c as [|y c].
+    + simpl in E. subst d. simpl in Ha. apply andb_true_iff in Ha.
+      rewrite (Hd x (a ++ b) eq_refl) in Ha. destruct Ha; discriminate.
+    + simpl in E. inversion E; subst. simpl in Ha, Hc. apply andb_true_iff in Ha, Hc.
+      destruct (IH b c d H1) as [-> ->]; tauto.
+Qed.
+
+Theorem label_iff : forall s name off,
+  label_try_parse s = Ok (Some (name, off)) <-> LabelSyn s name off.
+Proof.
+  intros s name off. split.
+  - unfold label_try_parse. intros H. destruct s as [|c rest]; [discriminate|].
+    destruct (can_start_with c) eqn:Ec; simpl negb in H; cbv iota in H; [|discriminate].
+    destruct (label_scan_spec2 rest (len_utf8 c)) as (pre & suf & -> & E & Hp & Hs). rewrite E in H.
+    change (c :: pre ++ suf) with ((c :: pre) ++ suf) in *.
+    change (len_utf8 c + bytes pre) with (bytes (c :: pre)) in H.
+    rewrite split_at_app in H. destruct suf as [|x suf].
+    { inversion H; subst. rewrite app_nil_r. constructor; assumption. }
+    destruct (parse_integer (x :: suf) true) as [[o|]|e|w|q] eqn:Ei; simpl in H; try discriminate.
+    destruct (as_i16 o) as [o'| | |] eqn:E2; simpl in H; try discriminate. inversion H; subst.
+    apply as_i16_iff in E2. destruct E2 as [-> Hf].
+    apply Lbl_offset; auto. apply parse_integer_signed. exact Ei.
+  - intros H. inversion H as [c cs Hc Hcs|c cs offs v Hc Hcs Hsi Hf]; subst.
+    + unfold label_try_parse. rewrite label_start_eq, Hc. simpl negb. cbv iota.
+      pose proof (label_scan_all cs [] (len_utf8 c) Hcs ltac:(intros; discriminate)) as E.
+      rewrite app_nil_r in E. rewrite E.
+      change (len_utf8 c + bytes cs) with (bytes (c :: cs)).
+      pose proof (split_at_app (c :: cs) []) as E2. rewrite app_nil_r in E2. rewrite E2. reflexivity.
+    + destruct Hsi as [Hi (x & t & -> & Hx)].
+      assert (Hnl : forall y u, x :: t = y :: u -> label_char y = false).
+      { intros y u E. inversion E; subst. destruct Hx as [-> | ->]; reflexivity. }
+      change ((c :: cs) ++ x :: t) with (c :: (cs ++ x :: t)). unfold label_try_parse.
+      rewrite label_start_eq, Hc. simpl negb. cbv iota.
+      rewrite label_scan_all by assumption.
+      change (len_utf8 c + bytes cs) with (bytes (c :: cs)).
+      change (c :: cs ++ x :: t) with ((c :: cs) ++ x :: t).
+      rewrite split_at_app.
+      assert (Es : parse_integer (x :: t) true = Ok (Some off)).
+      { apply parse_integer_signed. split; [exact Hi|eauto]. }
+      rewrite Es. simpl. assert (E : as_i16 off = Ok off) by (apply as_i16_iff; auto).
+      rewrite E. reflexivity.
+Qed.
+
+(** A value argument is the 16-bit pattern of an integer in [-32768, 65535]. *)
+Theorem value_iff : forall s v,
+  (exists x, parse_integer s false = Ok (Some x) /\ as_u16_cast x = Ok v) <-> ValueSyn s v.
+Proof.
+  intros s v. split.
+  - intros (x & Hp & Hc). apply parse_integer_sound in Hp. unfold as_u16_cast in Hc.
+    destruct (Z.ltb_spec x 0).
+    + destruct (as_i16 x) as [y| | |] eqn:E; simpl in Hc; try discriminate. inversion Hc; subst.
+      apply as_i16_iff in E. destruct E as [-> Hf]. unfold fits_i16 in Hf.
+      replace (y mod 65536)%Z with (y + 65536)%Z.
+      * apply Val_neg; [exact Hp|lia].
+      * apply Z.mod_unique with (q := (-1)%Z); lia.
+    + apply as_u16_iff in Hc. destruct Hc as [-> Hf]. apply Val_nonneg; assumption.
+  - intros H. inversion H as [s' v' Hi Hr|s' x Hi Hr]; subst.
+    + exists v. split; [apply parse_integer_complete; exact Hi|]. unfold as_u16_cast.
+      destruct (Z.ltb_spec v 0); [lia|]. apply as_u16_iff. split; [reflexivity|exact Hr].
+    + exists x. split; [apply parse_integer_complete; exact Hi|]. unfold as_u16_cast.
+      destruct (Z.ltb_spec x 0); [|lia].
+      assert (E : as_i16 x = Ok x) by (apply as_i16_iff; unfold fits_i16; split; [reflexivity|lia]).
+      rewrite E. simpl. f_equal. symmetry. apply Z.mod_unique with (q := (-1)%Z); lia.
+Qed.
